@@ -11,6 +11,8 @@ package main
 import (
 	"fmt"
 	"os"
+	"sort"
+	"strings"
 )
 
 var debugInst bool
@@ -378,6 +380,15 @@ func prepareQuery(pc, goal *Term, hints []*Term, refHints []*Term) (newGoal *Ter
 			refs[c.id] = true
 		}
 	}
+	// the arbitrary element of a slice of pointers the goal talks about (ptrs[k] for the goal's own k) is an
+	// object the callees' `forall x *T` postconditions have to be applied to
+	for _, x := range goalPointerElems(g, sk) {
+		if !seen[x.id] {
+			seen[x.id] = true
+			refs[x.id] = true
+			consts = append(consts, x)
+		}
+	}
 	if debugInst {
 		for _, c := range consts {
 			fmt.Fprintf(os.Stderr, "  inst const ref=%v %s\n", refs[c.id] || isRefVar(c), debugTerm(c, 4))
@@ -403,9 +414,45 @@ func prepareQuery(pc, goal *Term, hints []*Term, refHints []*Term) (newGoal *Ter
 	const perHyp = 200
 	var parts []*Term
 	ng := Not(g)
+	// relevance order: hypotheses that mention a heap field the goal mentions are instantiated first (the
+	// budget is finite, and structure invariants repeated for several states used to exhaust it before the
+	// facts about the goal's own fields were reached); the order is otherwise unchanged
+	hyps = append([]*Term{}, conjuncts(pc)...)
+	{
+		gf := map[string]bool{}
+		fieldBases(g, gf, map[int]bool{})
+		if len(gf) > 0 {
+			rel := map[int]int{}
+			for _, c := range hyps {
+				if hasQuant(c) {
+					hf := map[string]bool{}
+					fieldBases(c, hf, map[int]bool{})
+					n := 0
+					for k := range hf {
+						if gf[k] {
+							n++
+						}
+					}
+					rel[c.id] = n
+				}
+			}
+			// cheap (one bound variable) before expensive, relevant before irrelevant within each class
+			cls := func(t *Term) int {
+				k := 0
+				if quantWidth(t) > 1 {
+					k = 2
+				}
+				if rel[t.id] == 0 {
+					k++
+				}
+				return k
+			}
+			sort.SliceStable(hyps, func(a, b int) bool { return cls(hyps[a]) < cls(hyps[b]) })
+		}
+	}
 	for round := 0; round < 2 && len(consts) > 0; round++ {
 		var insts []*Term
-		for _, c := range conjuncts(pc) {
+		for _, c := range hyps {
 			if hasQuant(c) && budget > 0 {
 				b := perHyp
 				if budget < b {
@@ -472,6 +519,110 @@ func prepareQuery(pc, goal *Term, hints []*Term, refHints []*Term) (newGoal *Ter
 }
 
 // isRefVar: bound variables of pointer / map type are named ref$..., and so are their skolem constants.
+// goalPointerElems returns the terms ptrs[idx] of the goal that read an element of a slice of pointers at an
+// index mentioning one of the goal's skolem constants (at most two).
+func goalPointerElems(g *Term, sk []*Term) []*Term {
+	skid := map[int]bool{}
+	for _, c := range sk {
+		skid[c.id] = true
+	}
+	mentions := map[int]bool{}
+	var has func(t *Term) bool
+	has = func(t *Term) bool {
+		if v, ok := mentions[t.id]; ok {
+			return v
+		}
+		r := skid[t.id]
+		for _, a := range t.args {
+			if has(a) {
+				r = true
+			}
+		}
+		mentions[t.id] = r
+		return r
+	}
+	var out []*Term
+	seen := map[int]bool{}
+	var walk func(t *Term)
+	walk = func(t *Term) {
+		if seen[t.id] || len(out) >= 2 {
+			return
+		}
+		seen[t.id] = true
+		if t.kind == 'a' && t.op == "select" && len(t.args) == 2 && !t.open {
+			if row := t.args[0]; row.kind == 'a' && row.op == "select" && len(row.args) == 2 && row.args[0].kind == 'v' {
+				fb := map[string]bool{}
+				fieldBases(row.args[0], fb, map[int]bool{})
+				ptr := false
+				for k := range fb {
+					if strings.HasPrefix(k, "E__") {
+						ptr = true
+					}
+				}
+				if ptr && has(t.args[1]) {
+					out = append(out, t)
+				}
+			}
+		}
+		for _, a := range t.args {
+			walk(a)
+		}
+	}
+	walk(g)
+	return out
+}
+
+// fieldBases collects the state-independent names of the heap symbols (fields F_, elements E_, maps M_) a term mentions.
+func fieldBases(t *Term, out map[string]bool, seen map[int]bool) {
+	if seen[t.id] {
+		return
+	}
+	seen[t.id] = true
+	if t.kind == 'v' && len(t.args) == 0 {
+		s := t.op
+		for _, tag := range []string{"F_", "E_", "M_"} {
+			if i := strings.Index(s, tag); i >= 0 && (i == 0 || s[i-1] == '_' || s[i-1] == '$') {
+				b := s[i:]
+				if j := strings.IndexByte(b, '!'); j >= 0 {
+					b = b[:j]
+				}
+				out[b] = true
+				break
+			}
+		}
+	}
+	for _, a := range t.args {
+		fieldBases(a, out, seen)
+	}
+}
+
+// quantWidth is the largest number of variables bound by one quantifier of t (2 or more marks the
+// hypotheses whose instantiation grows quadratically with the number of candidates).
+func quantWidth(t *Term) int {
+	w := 0
+	var walk func(t *Term, seen map[int]bool)
+	walk = func(t *Term, seen map[int]bool) {
+		if seen[t.id] || t.qd == 0 {
+			return
+		}
+		seen[t.id] = true
+		if t.kind == 'q' {
+			n := len(t.bvars)
+			if t.qd > 1 {
+				n++
+			}
+			if n > w {
+				w = n
+			}
+		}
+		for _, a := range t.args {
+			walk(a, seen)
+		}
+	}
+	walk(t, map[int]bool{})
+	return w
+}
+
 func isRefVar(t *Term) bool {
 	for i := 0; i+4 <= len(t.op); i++ {
 		if t.op[i:i+4] == "ref$" || t.op[i:i+4] == "ref_" {
